@@ -60,8 +60,6 @@ Outcomes(f1, f2) ==
     [] OTHER -> ReshuffleOutcomes(f1, f2)
 Pairs ==
   CASE Mutant = "ignore_detailed" -> VPairs(c, FALSE)
-    [] Mutant = "same_hyperedge_twice" ->      \* the `while f1 == f2` re-draw is missing
-         {p \in BSupport(c) \X BSupport(c) : det => Cardinality(p[1]) = Cardinality(p[2])}
     [] OTHER -> VPairs(c, det)
 
 EndEpoch(a, r) == c' = BPlus(BMinus(c, r), a) /\ add' = EmptyBag /\ rem' = EmptyBag /\ nclash' = 0
@@ -75,9 +73,9 @@ Accept(p, o) ==
        /\ Assert(c' = Virtual, "a discarded proposal changed the bag")
   ELSE LET a2 == BPlus(add, BPair(o[1], o[2]))
            r2 == BPlus(rem, BPair(p[1], p[2]))
-       IN /\ (Mutant # "none" \/ NClash >= 2 \/
-              Assert(BPlus(BMinus(c, r2), a2) \in VAcceptSucc(Virtual, det),
-                     "a collected proposal is not an accepted step of the sequential chain"))
+       IN /\ IF Mutant # "none" \/ NClash >= 2 THEN TRUE
+             ELSE Assert(BPlus(BMinus(c, r2), a2) \in VAcceptSucc(Virtual, det),
+                         "a collected proposal is not an accepted step of the sequential chain")
           /\ IF NClash = 0 THEN EndEpoch(a2, r2)
              ELSE add' = a2 /\ rem' = r2 /\ nclash' = k /\ c' = c
 Proposal ==
@@ -103,6 +101,8 @@ CounterConserved     == Boundary => /\ \A n \in Node : BDeg(c, n) = SetDeg(Sel, 
                                      /\ BSizes(c) = SetSizes(Sel)
 \* X04-d: what one epoch collects concerns pairwise different hyperedges
 EpochRemovesEachValueOnce == NClash <= 1 => \A e \in DOMAIN rem : rem[e] = 1 /\ e \in BSupport(c)
+\* a state constraint for the quick negative control of NClash = 2 (one input on which the breakage shows)
+ClashWitnessInput == inp = {{1}, {2}, {3, 4}} /\ ~det /\ sz = 0
 \* negative controls (must FAIL): without `detailed` per-size degrees move; the chain does create parallel hyperedges
 DegPerSizeConservedEvenIfNotDetailed == \A n \in Node, z \in Sizes : BDegZ(Virtual, n, z) = SetDegZ(Sel, n, z)
 NeverParallel == \A e \in DOMAIN Virtual : Virtual[e] <= 1
